@@ -349,10 +349,14 @@ def scratch_env():
         shutil.rmtree(root, ignore_errors=True)
 
 
-def tree(path):
+def tree(path, hidden=False):
+    """files below `path`; hidden auxiliary files (dot files such as a lock file next to an entry) only on request:
+    they are neither cache entries nor downloaded data"""
     out = []
     for d, dirs, files in os.walk(path):
         for f in files:
+            if (f.startswith(".") or f.endswith(".lock")) and not hidden:
+                continue
             out.append(os.path.relpath(os.path.join(d, f), path))
     return sorted(out)
 
